@@ -130,6 +130,37 @@ Theorem C19_prefix_variant_kept_record_on_success :
 Proof. exact prefix_record_kept_on_success. Qed.
 Print Assumptions C19_prefix_variant_kept_record_on_success.
 
+(* genesis export / import (operation ExportImport of the histories; every theorem above that speaks of "all operation
+   lists" includes it): what survives and what does not, for every state *)
+Theorem C19_export_import_state :
+  forall isender s,
+  let s' := step isender s ExportImport in
+  ibal s' = ibal s /\ commits s' = commits s /\ sent s' = sent s /\ nextseq s' = nextseq s /\ ilog s' = ilog s /\
+  rel s' = [] /\ pair_on s' VoucherMeta = true /\ (forall t, t <> VoucherMeta -> pair_on s' t = pair_on s t).
+Proof. exact export_import_state. Qed.
+Print Assumptions C19_export_import_state.
+
+(* FINDING C19-2 (open), labelled: the same EVM-started transfer and the same timeout, without and with a genesis
+   export / import in between — without: re-converted to ERC-20 once; with: commitment consumed, nothing re-converted,
+   the sender is left with voucher coins *)
+Theorem C19_export_import_loses_record :
+  (let s := run ex_isender [SendFromEvm 0 0 (DAlias 0) 30; Timeout 0 1] ex_state in
+   commits s = [] /\ count (is_reconv 0 1) (ilog s) = 1%nat /\ ibal s (0, AErc, 0) = 500) /\
+  (let s := run ex_isender [SendFromEvm 0 0 (DAlias 0) 30; ExportImport; Timeout 0 1] ex_state in
+   commits s = [] /\ count (is_sendevm 0 1) (ilog s) = 1%nat /\ count (is_reconv 0 1) (ilog s) = 0%nat /\
+   ibal s (0, AErc, 0) = 470 /\ ibal s (0, ACoin, 0) = 0 /\ ibal s (0, AVoucher, 0) = 30).
+Proof. exact export_import_loses_record. Qed.
+Print Assumptions C19_export_import_loses_record.
+
+(* after a genesis import the voucher denoms have bank metadata of their own (ibc-go transfer InitGenesis): the refund of an
+   Alias-token transfer that has a tracking record can then only fail *)
+Theorem C19_alias_refund_refused_with_voucher_metadata :
+  forall pk s t,
+  p_denom pk = DAlias t -> in_rel (rel s) (p_chan pk) (p_seq pk) = true -> pair_on s VoucherMeta = true ->
+  exists e, refund pk s = Err e.
+Proof. exact alias_refund_refused_with_voucher_metadata. Qed.
+Print Assumptions C19_alias_refund_refused_with_voucher_metadata.
+
 (* memo calls: under the stated disjointness (derived senders are not local accounts) no call ever runs as a local
    account, over all operation lists … *)
 Theorem C19_no_impersonation :
